@@ -70,6 +70,9 @@ pub struct KeyMap {
     pub family: String,
     map: HashMap<String, PrivateKey>,
     by_id: HashMap<String, String>,
+    /// names that stand for a public key nobody holds the private half of (e.g. a key whose scheme this
+    /// library does not implement)
+    public_only: HashMap<String, PublicKey>,
 }
 
 impl KeyMap {
@@ -89,23 +92,37 @@ impl KeyMap {
             map.insert(n.to_string(), k);
         }
         assert_eq!(by_id.len(), names.len(), "key names must map to distinct keys");
-        KeyMap { family: family.to_string(), map, by_id }
+        KeyMap { family: family.to_string(), map, by_id, public_only: HashMap::new() }
     }
     pub fn add(&mut self, name: &str, k: PrivateKey) {
         self.by_id.insert(kid_str(k.key_id()), name.to_string());
         self.map.insert(name.to_string(), k);
     }
+    pub fn add_public(&mut self, name: &str, k: PublicKey) {
+        self.by_id.insert(kid_str(k.key_id()), name.to_string());
+        self.public_only.insert(name.to_string(), k);
+    }
+    /// the public key of `of` re-declared with a signature scheme this library does not know
+    pub fn unknown_scheme_twin(&self, _of: &str) -> PublicKey {
+        // (an RSA fixture whatever the family: it is the key type whose declaration admits other schemes)
+        let base = load("rsa2048-256", 1);
+        PublicKey::from_spki(&base.public().as_spki().unwrap(), SignatureScheme::Unknown("rsa-pkcs1v15-sha256".into()))
+            .expect("a key with an unknown scheme is representable")
+    }
     pub fn sk(&self, name: &str) -> &PrivateKey {
         self.map.get(name).unwrap_or_else(|| panic!("no key {name}"))
     }
     pub fn pk(&self, name: &str) -> &PublicKey {
+        if let Some(k) = self.public_only.get(name) {
+            return k;
+        }
         self.sk(name).public()
     }
     pub fn id(&self, name: &str) -> KeyId {
-        self.sk(name).key_id().clone()
+        self.pk(name).key_id().clone()
     }
     pub fn idstr(&self, name: &str) -> String {
-        kid_str(self.sk(name).key_id())
+        kid_str(self.pk(name).key_id())
     }
     /// abstract name of a concrete key id (or the id itself when unknown)
     pub fn name_of(&self, id: &str) -> String {
